@@ -239,6 +239,9 @@ func (g *gen) detHarnesses(m *Message) {
 }
 
 func (g *gen) MiscSource(prop string, msgs []*Message, fieldFilter func(m *Message, f *Field) bool) string {
+	if prop == "C05" && g.mapN < 2 {
+		g.mapN = 2
+	}
 	g.header()
 	g.driversOnce()
 	g.decodeCommon()
